@@ -82,7 +82,7 @@ def headers_x(ck, g, tier):
         # counterparts
         cps = []
         for cpn in r.sample(["A", "B"], r.choice([1, 2])):
-            form = r.choice(["plain", "same_args", "own_lt", "own_lt_twice", "two_own_lts", "ty_only"])
+            form = r.choice(["plain", "same_args", "own_lt", "own_lt_twice", "two_own_lts", "ty_only", "shared_then_own", "own_between_shared"])
             args, cplts = [], []
             if form == "same_args":
                 args = list(names)
@@ -95,6 +95,11 @@ def headers_x(ck, g, tier):
                 args, cplts = ["'x", "'y"] + lts, ["'x", "'y"] + lts
             elif form == "ty_only":
                 args = [t["name"] for t in tps]
+            elif form == "shared_then_own":
+                # lifetimes the type has itself first, a counterpart-only one after them
+                args, cplts = lts + ["'x"] + ([t["name"] for t in tps] if g.chance(0.5) else []), lts + ["'x"]
+            elif form == "own_between_shared":
+                args, cplts = lts[:1] + ["'x"] + lts[1:] + ["'y"], lts[:1] + ["'x"] + lts[1:] + ["'y"]
             path = cpn + (("::" if g.chance(0.2) else "") + "<" + ", ".join(args) + ">" if args else "")
             cps.append(dict(path=path, lts=cplts, form=form))
         taken = set()
